@@ -11,7 +11,7 @@ import weakref
 
 import torch
 
-from vf.common import Obs, sub_seed, HarnessBug, Boom, WarnLog
+from vf.common import Obs, sub_seed, HarnessBug, Boom, BoomBase, WarnLog
 from vf import funcs, gen
 
 LEVEL = "fault_enumeration"
@@ -31,8 +31,8 @@ RULE = ("case = (scenario, functional or history, representation, phase, crash-i
         "performed at least one substitution / flag change")
 RULE += ('; linop scenario also with operators composed of repeated building blocks (parameter list with repeated tensors)')
 MIN_NONTRIVIAL = {"quick": 300, "thorough": 1500}
-REQUIRED_COUNTERS = {"quick": {"linop_composed_cases": 8, "crash_points_reached": 1500, "restore_events": 3000, "snapshots_compared": 2000},
-                     "thorough": {"linop_composed_cases": 40, "crash_points_reached": 15000, "restore_events": 30000, "snapshots_compared": 20000}}
+REQUIRED_COUNTERS = {"quick": {"base_exception_crashes": 100, "linop_composed_cases": 8, "crash_points_reached": 1500, "restore_events": 3000, "snapshots_compared": 2000},
+                     "thorough": {"base_exception_crashes": 1000, "linop_composed_cases": 40, "crash_points_reached": 15000, "restore_events": 30000, "snapshots_compared": 20000}}
 ASSUMPTIONS = ["single-threaded, seeded: the clean run and each injected run build identical objects from the same seed",
                "the snapshot ignores xitorch's own non-tensor caches on the object (_paramnames_, _unique_params_*, _number_of_params)",
                "attribute order in a plain object's __dict__ is not compared; nn.Module._parameters order is"]
@@ -99,8 +99,10 @@ def cases(seed, tier):
         for depth in (1, 2, 3):
             nseq = 3 ** depth
             for code in range(nseq):
-                for exc in (False, True):
+                for exc in (False, True, "base"):
                     if quick and depth == 3 and (code + (1 if exc else 0) + sub_seed(seed, rep) % 3) % 3 != 0:
+                        continue
+                    if exc == "base" and quick and depth == 3:
                         continue
                     out.append({"group": "nested_subst", "rep": rep, "depth": depth, "code": code, "exc": exc,
                                 "seed": sub_seed(seed, "c10s", k)})
@@ -109,7 +111,7 @@ def cases(seed, tier):
     for init in (False, True):
         for depth in (1, 2, 3):
             for code in range(2 ** depth):
-                for exc in (False, True):
+                for exc in (False, True, "base"):
                     out.append({"group": "debug_nesting", "init": init, "depth": depth, "code": code, "exc": exc,
                                 "seed": sub_seed(seed, "c10s", k)})
                     k += 1
@@ -337,6 +339,8 @@ class CoreSpy(object):
         self.counts[self.phase] = n
         if self.fail is not None and self.fail == (self.phase, n):
             self.fired = True
+            if getattr(self, "base_exc", False):
+                raise BoomBase("injected at %s call %d" % (self.phase, n))
             raise Boom("injected at %s call %d" % (self.phase, n))
         return self.core(*args)
 
@@ -344,7 +348,7 @@ class CoreSpy(object):
 def _boom_in_chain(e):
     seen = 0
     while e is not None and seen < 10:
-        if isinstance(e, Boom):
+        if isinstance(e, (Boom, BoomBase)):
             return True
         e = e.__cause__ or e.__context__
         seen += 1
@@ -403,6 +407,8 @@ def _func_run(desc, fail, obs, mech, clean):
         F = funcs.FUNCTIONALS[fname]
         lv = funcs.make_leaves(d, tg, dtype, tuple(bool(x) for x in desc.get("rg", (1, 1, 1))))
         spy = CoreSpy(F.core)
+        # every third scenario injects a failure that is NOT derived from Exception (KeyboardInterrupt-like)
+        spy.base_exc = desc["seed"] % 3 == 0
         built = funcs.build(rep, spy, F.nlead, funcs.effective(lv, derived), s)
         objs = built.objs
         leaves = [lv[k] for k in funcs.LEAF_NAMES]
@@ -439,8 +445,10 @@ def _func_run(desc, fail, obs, mech, clean):
                     spy.phase = "bwd2"
                     if isinstance(L2, torch.Tensor) and L2.requires_grad:
                         torch.autograd.grad(L2, leaves, allow_unused=True)
-        except Boom as e:
+        except (Boom, BoomBase) as e:
             raised = e
+            if isinstance(e, BoomBase):
+                obs.count("base_exception_crashes")
         except Exception as e:
             raised = e
             if not _boom_in_chain(e):
@@ -644,6 +652,8 @@ def run_nested_subst(desc, obs):
 
         def level(i, current):
             if i == depth:
+                if exc == "base":
+                    raise BoomBase("innermost")
                 if exc:
                     raise Boom("innermost")
                 return
@@ -676,8 +686,10 @@ def run_nested_subst(desc, obs):
                               "after inner level %d unwound, level %d's tensors are not the installed ones" % (i + 1, i))
         try:
             level(0, orig)
-        except Boom:
+        except (Boom, BoomBase):
             obs.count("crash_points_reached")
+            if exc == "base":
+                obs.count("base_exception_crashes")
         check_after(obs, mech, snap0, built.objs, reg, dbg0, "nested useobjparams %s on %s" % (kinds, rep))
         val1 = pf(y).detach()
         obs.check(torch.equal(val0, val1), "value_after:" + mech, "the function evaluates differently after the substitutions unwound")
@@ -689,12 +701,14 @@ def run_debug_nesting(desc, obs):
     import xitorch
     init, depth, code, exc = desc["init"], desc["depth"], desc["code"], desc["exc"]
     modes = [bool((code >> i) & 1) for i in range(depth)]
-    mech = "debug_nesting:init%d:%s%s" % (init, "".join("E" if m else "D" for m in modes), ":exc" if exc else "")
+    mech = "debug_nesting:init%d:%s%s" % (init, "".join("E" if m else "D" for m in modes), (":baseexc" if exc == "base" else ":exc") if exc else "")
     prev = xitorch.is_debug_enabled()
     xitorch.set_debug_mode(init)
     try:
         def level(i):
             if i == depth:
+                if exc == "base":
+                    raise BoomBase("innermost")
                 if exc:
                     raise Boom("innermost")
                 return
@@ -710,8 +724,10 @@ def run_debug_nesting(desc, obs):
                           "after leaving level %d the flag is %s, was %s" % (i, xitorch.is_debug_enabled(), before))
         try:
             level(0)
-        except Boom:
+        except (Boom, BoomBase):
             obs.count("crash_points_reached")
+            if exc == "base":
+                obs.count("base_exception_crashes")
         obs.check(xitorch.is_debug_enabled() == init, "debug_flag:" + mech, "flag is %s after the nest, was %s" % (xitorch.is_debug_enabled(), init))
         obs.count("snapshots_compared")
     finally:
